@@ -8,6 +8,7 @@ import (
 	"reflect"
 	"sort"
 	"strings"
+	"time"
 
 	"github.com/dave/jennifer/jen"
 
@@ -51,6 +52,7 @@ var c14Lists = []struct {
 	{"Qual(w/y,Z), Id(c).Op(+).Lit(2)", func() []jen.Code { return []jen.Code{jen.Qual("w/y", "Z"), jen.Id("c").Op("+").Lit(2)} }},
 	{"nil, Id(a), Add(nil).Id(b)", func() []jen.Code { return []jen.Code{nil, jen.Id("a"), jen.Add(nil).Id("b")} }},
 	{"Id(a).Clone(), Add(Id(b))", func() []jen.Code { return []jen.Code{jen.Id("a").Clone(), jen.Add(jen.Id("b"))} }},
+	{"Dict{}, Id(a), Dict{Null(): Lit(1)}", func() []jen.Code { return []jen.Code{jen.Dict{}, jen.Id("a"), jen.Dict{jen.Null(): jen.Lit(1)}} }},
 }
 
 // argDomain returns the tiny domain of values for a parameter type (nil = cannot synthesise).
@@ -148,6 +150,80 @@ func argDomain(t reflect.Type, variadic bool, method string, wild bool) []argVal
 		return []argVal{val("7", byte(7))}
 	}
 	return nil
+}
+
+// values of named types (outside Lit's contract: whatever Lit does with them, LitFunc does too)
+type c14Level int
+type c14Name string
+type c14Ratio float64
+
+// c14RetainedGroup: the group a ...Func callback was handed is the group that ends up in the
+// statement - items added through a retained handle after the constructing call returned appear,
+// exactly as in the variadic form built with those items.
+func c14RetainedGroup(r *ev.Recorder) {
+	for i := 0; i < stmtType.NumMethod(); i++ {
+		m := stmtType.Method(i)
+		if !strings.HasSuffix(m.Name, "Func") || m.Type.NumIn() < 2 || m.Type.In(m.Type.NumIn()-1) != groupFunc {
+			continue
+		}
+		base, ok := stmtType.MethodByName(strings.TrimSuffix(m.Name, "Func"))
+		if !ok || !base.Type.IsVariadic() {
+			continue
+		}
+		for oi, opt := range c13Options {
+			custom := m.Type.NumIn() == 3
+			if !custom && oi > 0 {
+				break
+			}
+			var pre []reflect.Value
+			if custom {
+				pre = []reflect.Value{reflect.ValueOf(opt)}
+			}
+			for form := 0; form < 3; form++ {
+				var kept *jen.Group
+				inner := ""
+				cb := reflect.ValueOf(func(g *jen.Group) {
+					g.Add(jen.Id("a"))
+					kept = g
+					inner = jh.Catch(func() (string, error) { return g.GoString(), nil }).Key()
+				})
+				var st *jen.Statement
+				switch form {
+				case 0:
+					st = &jen.Statement{}
+					call(reflect.ValueOf(st).MethodByName(m.Name), append(append([]reflect.Value(nil), pre...), cb), false)
+				case 1:
+					if fn, ok := apiFuncs[m.Name]; ok {
+						rv, p := call(reflect.ValueOf(fn), append(append([]reflect.Value(nil), pre...), cb), false)
+						if p == nil {
+							st, _ = rv.Interface().(*jen.Statement)
+						}
+					}
+				case 2:
+					st = jen.CustomFunc(jen.Options{}, func(g *jen.Group) {
+						call(reflect.ValueOf(g).MethodByName(m.Name), append(append([]reflect.Value(nil), pre...), cb), false)
+					})
+				}
+				if st == nil || kept == nil {
+					continue
+				}
+				kept.Add(jen.Id("b"))
+				want := &jen.Statement{}
+				call(reflect.ValueOf(want).MethodByName(base.Name), append(append([]reflect.Value(nil), pre...), reflect.ValueOf([]jen.Code{jen.Id("a"), jen.Id("b")})), true)
+				wantInner := &jen.Statement{}
+				call(reflect.ValueOf(wantInner).MethodByName(base.Name), append(append([]reflect.Value(nil), pre...), reflect.ValueOf([]jen.Code{jen.Id("a")})), true)
+				r.Eval(2)
+				desc := fmt.Sprintf("%s (form %d, options %d): item added through the retained group after the call", m.Name, form, oi)
+				r.Distinct(desc)
+				if a, b := jh.Raw(st), jh.Raw(want); a.Key() != b.Key() {
+					r.Violate(ev.Violation{Signature: "c14:retained-group:" + base.Name, What: fmt.Sprintf("%s: %q, %s(a, b) renders %q", desc, a, base.Name, b), Case: ev.JSON(c14Case{Kind: "hoisting", Name: m.Name, Desc: desc})})
+				}
+				if wi := jh.Catch(func() (string, error) { return wantInner.GoString(), nil }).Key(); form == 0 && inner != wi {
+					r.Violate(ev.Violation{Signature: "c14:group-gostring-inside-callback:" + base.Name, What: fmt.Sprintf("%s: inside the callback the group prints %q, %s(a) prints %q", m.Name, inner, base.Name, wi), Case: ev.JSON(c14Case{Kind: "hoisting", Name: m.Name, Desc: desc})})
+				}
+			}
+		}
+	}
 }
 
 // c14Stringer is a format argument that formats itself (fmt.Formatter): user code run by whoever
@@ -881,10 +957,11 @@ func runC14(r *ev.Recorder) {
 	c14SpareCapacity(r)
 	c14Hoisting(r)
 	c14Reentrant(r)
+	c14RetainedGroup(r)
 	c14LateMaps(r)
 	// the ...Func literal constructors are the plain ones applied to what the callback returns -
 	// whatever the plain one does with the value (also when it is a value Lit cannot render)
-	for _, v := range []any{1, "s", 1.5, true, int8(3), 2i, uint64(1) << 63, float32(0.1), math.Inf(1), math.Inf(-1), math.NaN(), float32(math.Inf(1)), complex(math.NaN(), 1), complex64(complex(math.Inf(1), 0)), struct{ A int }{1}, []int{1}, nil} {
+	for _, v := range []any{1, "s", 1.5, true, int8(3), 2i, uint64(1) << 63, float32(0.1), math.Inf(1), math.Inf(-1), math.NaN(), float32(math.Inf(1)), complex(math.NaN(), 1), complex64(complex(math.Inf(1), 0)), struct{ A int }{1}, []int{1}, nil, c14Level(3), c14Name("n"), time.Duration(5), c14Ratio(1.5)} {
 		v := v
 		a := jh.CatchOutcome(func() jh.Outcome { return jh.Raw(jen.Id("x").Op("=").Lit(v)) })
 		b := jh.CatchOutcome(func() jh.Outcome { return jh.Raw(jen.Id("x").Op("=").LitFunc(func() interface{} { return v })) })
